@@ -144,6 +144,21 @@ def decide(ob, prog, src, tier):
                     res["status"] = "inconclusive"
                     res["reason"] = f"z3 unknown on `{label}`"
                     return res
+                if r == z3.sat and getattr(p.ctx, "lazy_defs", None):
+                    # the path used abstract predicates: add their definitions before believing the counterexample
+                    s.add(*p.ctx.lazy_defs)
+                    r = s.check()
+                    nq += 1
+                    if r == z3.unknown:
+                        cv = cvc5_check(s.to_smt2().replace("(check-sat)", ""), 120)
+                        if cv == "unsat":
+                            r = z3.unsat
+                        else:
+                            res["status"] = "inconclusive"
+                            res["reason"] = f"solver unknown when concretising a counterexample of `{label}` (cvc5: {cv})"
+                            return res
+                    if r == z3.unsat:
+                        continue
                 if r == z3.sat:
                     m = s.model()
                     res["status"] = "fail"
